@@ -531,7 +531,22 @@ def reader_entry_rule(repo: Repo, rep, P: str):
                               "nested load calls a different read_sunvox_file", f"{ci.file.rel}:{fn.lineno}")
         else:
             loads = [c for c in calls if c.split(".")[-1] in readers or "chunks" == c.split(".")[-1]]
-            if loads:
+            # Synth(self).clone(): the container's own clone (checked in this same list) does the nested load
+            cont = repo.cls("Container", module="rv.container")
+            delegated = []
+            for c in walk_no_nested(fn):
+                if isinstance(c, ast.Call) and isinstance(c.func, ast.Attribute) and c.func.attr == "clone" and isinstance(c.func.value, ast.Call) \
+                        and isinstance(c.func.value.func, ast.Name):
+                    try:
+                        k = repo.cls(c.func.value.func.id)
+                        r_ = repo.lookup(k, "clone")
+                        if cont in repo.mro(k) and r_ is not None and r_[0] is cont:
+                            delegated.append(norm(c))
+                    except Exception:
+                        pass
+            if delegated and not loads:
+                rep.ok(f"{P}.R4", f"{ci.file.rel}:{cname}.{meth}", delegated[0], "delegates to Container.clone, which re-enters the guarded entry")
+            elif loads:
                 rep.violation(f"{P}.R4", f"{ci.file.rel}:{cname}.{meth}", ", ".join(loads),
                               "nested load does not go through read_sunvox_file", f"{ci.file.rel}:{fn.lineno}")
             else:
